@@ -51,21 +51,53 @@ contract('HttpRelayClient._process_response', module=M, props=['C11', 'C19', 'C0
                   'implies(result.is_exc, isinstance(result.value, RelayError) and cast(result.value, RelayError).reply != None)'],
          modifies=['result.answered', 'result.n_answers', 'result.is_exc', 'result.value', 'fresh'])
 
-extern('HttpRelayClient._handle_request', params={'self': 'HttpRelayClient', 'result': 'AsyncResult', 'envelope': 'Envelope'},
-       yields=True, requires=['result != None', 'AR_ok(result)'],
-       modifies=['result.answered', 'result.n_answers', 'result.is_exc', 'result.value', 'self.conn', 'fresh'],
-       ensures=['AR_ok(result)', 'result.n_answers == old(result.n_answers) + 1', 'result.answered'],
-       raises={'OSError': ['AR_ok(result)', 'result.n_answers == old(result.n_answers)'],
-               'Timeout': ['AR_ok(result)', 'result.n_answers == old(result.n_answers)'],
-               'OtherException': ['AR_ok(result)', 'result.n_answers <= old(result.n_answers) + 1',
-                                  'result.n_answers >= old(result.n_answers)']},
-       notes='HttpRelayClient._handle_request assumed at its call site (http.client exchange under gevent.Timeout(relay.'
-             'timeout)): answers the request through _process_response when a response arrives; a connection error, the '
-             'relay timeout or any other exception escapes with the request unanswered')
+# ---- the HTTP exchange itself (C14: every blocking step under the relay timeout; C11: answered through
+# _process_response exactly when a response arrived)
+klass('SplitResult', fields={'path': 'Str'})
+klass('HttpRelayClient', fields={'url': 'SplitResult'})
+klass('HttpRelay', fields={'http_verb': 'Str'})
+HSCOPE = ['in_timeout_scope()']
+HERR = {'OSError': [], 'Timeout': [], 'OtherException': []}
+extern('HttpRelayClient._new_conn', params={'self': 'HttpRelayClient'}, modifies=['self.conn', 'self.ehlo_as'],
+       ensures=['self.conn != None', 'fresh(self.conn)'], raises={'OSError': [], 'OtherException': []},
+       notes='HttpRelayClient._new_conn: builds the http.client connection object (no I/O: the connection is opened '
+             'lazily by the first request)')
+extern('HTTPConnection.putrequest', params={'self': 'HTTPConnection', 'method': 'Str', 'url': 'Str'}, raises=HERR,
+       notes='http.client: buffers the request line')
+extern('HTTPConnection.putheader', params={'self': 'HTTPConnection', 'name': 'Bytes', 'value': 'Bytes'}, raises=HERR,
+       notes='http.client: buffers one header line')
+for _m, _p in (('endheaders', {'message_body': 'Bytes'}), ('send', {'data': 'Bytes'})):
+    p = {'self': 'HTTPConnection'}
+    p.update(_p)
+    extern('HTTPConnection.' + _m, params=p, yields=True, requires=HSCOPE, raises=HERR,
+           notes='http.client %s: connects if necessary and writes to the socket (blocks: G4 scope required)' % _m)
+extern('HTTPConnection.getresponse', params={'self': 'HTTPConnection'}, returns='HTTPResponse', yields=True,
+       requires=HSCOPE, raises=HERR,
+       ensures=['result != None', 'fresh(result)', 'result.status >= 100 and result.status < 600'],
+       notes='http.client getresponse: blocks until the status line and headers arrived (G4 scope required)')
+contract('HttpRelayClient._handle_request', module=M, props=['C11', 'C14', 'C19'], yields=True,
+         params={'self': 'HttpRelayClient', 'result': 'AsyncResult', 'envelope': 'Envelope'},
+         requires=['result != None', 'AR_ok(result)', 'self.relay != None', 'self.url != None', 'envelope != None',
+                   'envelope.recipients != None', 'envelope.sender is not None'],
+         ensures=['AR_ok(result)', 'result.n_answers == old(result.n_answers) + 1', 'result.answered'],
+         # whatever escapes (connection error, the relay timeout, an encoding error), the request is not answered twice;
+         # a connection error or the timeout leaves it unanswered (the caller answers it)
+         raises={'OSError': ['AR_ok(result)', 'result.n_answers == old(result.n_answers)'],
+                 'Timeout': ['AR_ok(result)', 'result.n_answers == old(result.n_answers)'],
+                 'OtherException': ['AR_ok(result)', 'result.n_answers <= old(result.n_answers) + 1',
+                                    'result.n_answers >= old(result.n_answers)'],
+                 'UnicodeEncodeError': ['AR_ok(result)', 'result.n_answers == old(result.n_answers)'],
+                 'AssertionError': ['AR_ok(result)', 'result.n_answers == old(result.n_answers)']},
+         checks=['ncalls("HttpRelayClient._process_response") == 1', 'ncalls("HTTPConnection.getresponse") == 1'],
+         modifies=['result.answered', 'result.n_answers', 'result.is_exc', 'result.value', 'self.conn', 'self.ehlo_as', 'fresh'],
+         scope_timeouts=['self.relay.timeout'],
+         loops={0: dict(modifies=['new'], inv=['self.conn != None', 'AR_ok(result)', 'result.n_answers == old(result.n_answers)',
+                                               'result.answered == old(result.answered)'])})
 extern('HttpRelayClient.poll', params={'self': 'HttpRelayClient'}, returns='Tuple[AsyncResult, Envelope]', yields=True,
        ensures=['(result[0] == None) == (result[1] == None)',
                 'implies(result[0] != None, allocated(result[0]) and allocated(result[1]) and not result[0].answered '
-                '        and result[0].n_answers == 0 and AR_ok(result[0]))'],
+                '        and result[0].n_answers == 0 and AR_ok(result[0]) '
+                '        and result[1].recipients != None and result[1].sender is not None)'],
        notes='RelayPoolClient.poll as seen by the HTTP client (assumed view, as for the SMTP client)')
 klass('Envelope', truthy='True')
 klass('AsyncResult', truthy='True')
@@ -74,22 +106,24 @@ HDONE = 'self.cur == None or (self.cur.answered and self.cur.n_answers == 1)'
 contract('HttpRelayClient._wait_for_request', module=M, props=['C11', 'C19'], yields=True,
          params={'self': 'HttpRelayClient'},
          ghost_after={'result, envelope = self.poll()': ['self.cur = result']},
+         requires=['self.relay != None', 'self.url != None'],
          # the request taken from the queue is answered exactly once, also when the exchange fails
          ensures=[HDONE],
-         raises={'OSError': [HDONE], 'Timeout': [HDONE], 'OtherException': [HDONE]},
-         modifies=['self.cur', 'self.idle', 'self.conn', 'any(AsyncResult).answered', 'any(AsyncResult).n_answers',
+         raises={'OSError': [HDONE], 'Timeout': [HDONE], 'OtherException': [HDONE], 'UnicodeEncodeError': [HDONE],
+                 'AssertionError': [HDONE]},
+         modifies=['self.cur', 'self.idle', 'self.conn', 'self.ehlo_as', 'any(AsyncResult).answered', 'any(AsyncResult).n_answers',
                    'any(AsyncResult).is_exc', 'any(AsyncResult).value', 'fresh'],
          locals={'result': 'AsyncResult', 'envelope': 'Envelope'})
 
 contract('HttpRelayClient._run', module=M, props=['C11', 'C19'], yields=True,
          params={'self': 'HttpRelayClient'},
-         requires=['self.relay != None', 'self.cur == None'],
+         requires=['self.relay != None', 'self.url != None', 'self.cur == None'],
          # the connection's life: whatever ends it, the request it held last has been answered
          ensures=[HDONE],
-         raises={'OSError': [HDONE], 'OtherException': [HDONE]},
-         modifies=['self.cur', 'self.idle', 'self.conn', 'any(AsyncResult).answered', 'any(AsyncResult).n_answers',
+         raises={'OSError': [HDONE], 'OtherException': [HDONE], 'UnicodeEncodeError': [HDONE], 'AssertionError': [HDONE]},
+         modifies=['self.cur', 'self.idle', 'self.conn', 'self.ehlo_as', 'any(AsyncResult).answered', 'any(AsyncResult).n_answers',
                    'any(AsyncResult).is_exc', 'any(AsyncResult).value', 'fresh'],
-         loops={0: dict(inv=['self.relay != None', HDONE])})
+         loops={0: dict(inv=['self.relay != None', 'self.url != None', HDONE])})
 
 # ---------------------------------------------------------------------------- C06 fragment: HTTP envelope addressing
 # Client: one header per recipient, in recipient order, each the base64 form of THAT recipient; sender likewise.
